@@ -253,18 +253,39 @@ def holdsMsgs (delivered handed : List Nat) (left : Nat) (dropped : List Nat) : 
   decide (delivered = handed ++ ((delivered.drop handed.length).take left) ++ dropped)
   && decide (handed.length + left + dropped.length = delivered.length)
 
+/-- a normal end reports its own end block and has executed every state -/
+def holdsFinal (specs : List Spec) (o : Obs) : Bool :=
+  match o.res with
+  | .final _ e => decide (o.endBlock = e) && decide (o.recs.length = specs.length)
+  | _ => true
+
+/-- the per-record clause: record, nominal entry block, nominal initiate threshold -/
+def recOk (r : ObsRec) (e t : Nat) : Bool :=
+  decide (e ≤ r.entryH) && r.ctxLive && r.ctxCancelled &&
+    (match r.initH with | some h => decide (t ≤ h) && decide (r.entryH ≤ h) | none => false)
+
+/-- a state is entered not before the previous one ended (state 0 registers its handler before
+    the start block) and initiated not before its delay, with a live context that is cancelled
+    when it ends -/
+def holdsRecs (start : Nat) (specs : List Spec) (recs : List ObsRec) : Bool :=
+  allZip3 recOk recs (0 :: (entries start specs).tail) (thresholds start specs)
+
 def holds (start : Nat) (specs : List Spec) (evs : List Ev) (o : Obs) : Bool :=
   holdsSched start specs o.calls o.res
-  && (match o.res with
-      | .final _ e => decide (o.endBlock = e) && decide (o.recs.length = specs.length)
-      | _ => true)
-  -- a state is entered not before the previous one ended (state 0 registers its handler before
-  -- the start block) and initiated not before its delay,
-  -- with a live context that is cancelled when it ends
-  && allZip3 (fun r e t => decide (e ≤ r.entryH) && r.ctxLive && r.ctxCancelled &&
-        (match r.initH with | some h => decide (t ≤ h) && decide (r.entryH ≤ h) | none => false))
-      o.recs (0 :: (entries start specs).tail) (thresholds start specs)
+  && holdsFinal specs o
+  && holdsRecs start specs o.recs
   -- messages: FIFO, none lost, none duplicated, none invented
   && holdsMsgs (delivered evs) (o.recs.map (·.msgs)).flatten o.left o.dropped
+
+/-- what the driver prints for a model configuration, as an observation (contexts: live at
+    `Initiate`, cancelled at the end — for every initiated state) -/
+def obsRecOf (r : Rec) : ObsRec :=
+  { entryH := r.entryH, initH := r.initH, msgs := r.msgs,
+    ctxLive := r.initH.isSome, ctxCancelled := r.initH.isSome }
+
+def obsOf (c : Cfg) : Obs :=
+  { recs := (c.done ++ [c.crec]).map obsRecOf, calls := c.calls,
+    endBlock := (match c.res with | .final _ e => e | _ => 0), res := c.res,
+    dropped := c.dropped, left := c.buf.length }
 
 end KeepVerif.C14
